@@ -2005,6 +2005,14 @@ HMCgetdatainfo(int32 file_id, uint16 tag, uint16 ref, int32 *chk_coord, /* IN: c
     else
         HGOTO_ERROR(DFE_INTERNAL, FAIL);
 
+    /* The chunk has to lie inside the chunk grid: a coordinate beyond it would be
+       folded into the number of another chunk */
+    if (chkinfo == NULL || chk_coord == NULL)
+        HGOTO_ERROR(DFE_ARGS, FAIL);
+    for (int i = 0; i < chkinfo->ndims; i++)
+        if (chk_coord[i] < 0 || chk_coord[i] >= chkinfo->ddims[i].num_chunks)
+            HGOTO_ERROR(DFE_ARGS, FAIL);
+
     /* Calculate chunk number from origin */
     calculate_chunk_num(&chk_num, chkinfo->ndims, chk_coord, chkinfo->ddims);
 
